@@ -13,6 +13,7 @@ import (
 	"strings"
 
 	"github.com/Eyevinn/mp4ff/aac"
+	"github.com/Eyevinn/mp4ff/bits"
 	"github.com/Eyevinn/mp4ff/mp4"
 
 	"verifharness/hx"
@@ -222,6 +223,9 @@ func checkStructure(init *mp4.InitSegment, adds []*op, wit, where string) {
 	for i, t := range moov.Traks {
 		a := adds[i]
 		sp := specMedia[a.mt]
+		if got, want := shape(t), wantShape(a, t); got != want {
+			fail("CreateEmptyTrak", "trak-tree-shape"+where, wit, fmt.Sprintf("trak tree %s, expected %s", got, want))
+		}
 		if t.Mdia.Hdlr.HandlerType != sp[0] {
 			fail("CreateEmptyTrak", "handler-type"+where, wit, fmt.Sprintf("media type %s has handler %s, expected %s", a.mt, t.Mdia.Hdlr.HandlerType, sp[0]))
 		}
@@ -481,6 +485,18 @@ func checkRoundTrip(init *mp4.InitSegment, adds []*op, wit string) {
 	if uint64(len(enc)) != init.Size() {
 		fail("InitSegment.Encode", "size", wit, "Size() differs from the number of bytes written")
 	}
+	sw := bits.NewFixedSliceWriter(int(init.Size()))
+	if p := hx.Try(func() { err = init.EncodeSW(sw) }); p != "" || err != nil || !bytes.Equal(sw.Bytes(), enc) {
+		fail("InitSegment.EncodeSW", "differs-from-encode", wit, fmt.Sprintf("EncodeSW differs from Encode (panic %q err %v)", p, err))
+	}
+	if len(adds) > 0 {
+		var fsr *mp4.File
+		if p := hx.Try(func() { fsr, err = mp4.DecodeFileSR(bits.NewFixedSliceReader(enc)) }); p != "" || err != nil || fsr.Init == nil {
+			fail("DecodeFileSR", "decode-fails", wit, fmt.Sprintf("decoding the encoded init: panic %q err %v", p, err))
+		} else if !fsr.IsFragmented() || infoDump(fsr.Init) != infoDump(init) {
+			fail("DecodeFileSR", "tree-differs", wit, "DecodeFileSR of the encoded init: not fragmented or another Info dump")
+		}
+	}
 	if len(adds) == 0 {
 		// no track: not an init segment for any track id. DecodeFile refuses a moov without trak (error);
 		// the tree round trip is evaluated at box level.
@@ -668,4 +684,45 @@ func search(seed uint64, n int) {
 	}
 	outOfScope()
 	fmt.Fprintf(out, "EVALS\t%d\n", evals)
+}
+
+// shape renders the box tree of a trak down to (not including) the sample entries' children.
+func shape(b mp4.Box) string {
+	s := b.Type()
+	if b.Type() == "stsd" {
+		st := b.(*mp4.StsdBox)
+		names := []string{}
+		for _, c := range st.Children {
+			names = append(names, c.Type())
+		}
+		return "stsd{" + strings.Join(names, " ") + "}"
+	}
+	if c, ok := b.(mp4.ContainerBox); ok {
+		parts := []string{}
+		for _, ch := range c.GetChildren() {
+			parts = append(parts, shape(ch))
+		}
+		s += "{" + strings.Join(parts, " ") + "}"
+	} else if d, ok := b.(*mp4.DrefBox); ok {
+		parts := []string{}
+		for _, ch := range d.Children {
+			parts = append(parts, ch.Type())
+		}
+		s += "{" + strings.Join(parts, " ") + "}"
+	}
+	return s
+}
+
+// wantShape: the tree CreateEmptyTrak documents, with the table's media header, elng only for non-3-byte tags,
+// and the sample entries in call order (names taken from the trak: their content is checked by checkDescriptor).
+func wantShape(a *op, t *mp4.TrakBox) string {
+	elng := ""
+	if len(a.lang) != 3 {
+		elng = "elng "
+	}
+	names := []string{}
+	for _, c := range t.Mdia.Minf.Stbl.Stsd.Children {
+		names = append(names, c.Type())
+	}
+	return "trak{tkhd mdia{mdhd hdlr " + elng + "minf{" + specMedia[a.mt][1] + " dinf{dref{url }} stbl{stsd{" + strings.Join(names, " ") + "} stts stsc stsz stco}}}}"
 }
